@@ -31,7 +31,10 @@ Inductive ty :=
 | Pep604 (t : ty)                  (* t | None  (types.UnionType) *)
 | DictOf (k v : ty)                (* Dict[k, v] *)
 | Bare (o : origin)                (* typing.List, typing.Type, ... without parameters *)
-| Ellip.                           (* the `...` inside Tuple[t, ...]; only ever an element of get_args *)
+| Ellip                            (* the `...` inside Tuple[t, ...]; only ever an element of get_args *)
+(* ---- supported: a forward reference to a class that is not a module-level name (defined inside a function or
+        nested in a class): neither the module globals nor a scan of the loaded modules find it, only the diagram can *)
+| FwdLocal (n : name).
 
 Definition builtin_eqb (a b : builtin) : bool :=
   match a, b with
@@ -61,6 +64,7 @@ Fixpoint ty_eqb (a b : ty) : bool :=
   | DictOf k v, DictOf k' v' => ty_eqb k k' && ty_eqb v v'
   | Bare o, Bare o' => origin_eqb o o'
   | Ellip, Ellip => true
+  | FwdLocal x, FwdLocal y => Pos.eqb x y
   | _, _ => false
   end.
 
@@ -84,6 +88,7 @@ Proof.
   - rewrite IHa. split; congruence.
   - rewrite andb_true_iff, IHa1, IHa2. split; [intros [-> ->]; auto | intros H; injection H; auto].
   - rewrite origin_eqb_eq. split; congruence.
+  - rewrite Pos.eqb_eq. split; congruence.
 Qed.
 Lemma ty_eqb_refl a : ty_eqb a a = true.
 Proof. now apply ty_eqb_eq. Qed.
@@ -126,7 +131,7 @@ Definition get_origin (t : ty) : origin :=
   | TypeOf _ => OType
   | DictOf _ _ => ODict
   | Bare o => o
-  | Builtin _ | Cls _ | Enum _ | Fwd _ | Ellip => ONone
+  | Builtin _ | Cls _ | Enum _ | Fwd _ | Ellip | FwdLocal _ => ONone
   end.
 
 (* typing.get_args *)
@@ -186,7 +191,7 @@ Definition wf_ty (t : ty) : bool :=
   | _ => is_base t
   end.
 (* declared annotations: the same with names not yet resolved at the leaves *)
-Definition is_base_decl (t : ty) : bool := match t with Fwd _ => true | _ => is_base t end.
+Definition is_base_decl (t : ty) : bool := match t with Fwd _ | FwdLocal _ => true | _ => is_base t end.
 Definition wf_ann (t : ty) : bool :=
   match t with
   | Optional a | OptionalL a | Cont _ a | TypeOf a => is_base_decl a
